@@ -146,6 +146,9 @@ def inject(case):
                             replace_window=bool(len(ns.nested_samples) != len(ns.insertion_indices)),
                             pool_flag_window=bool(prop is not None and getattr(prop, "populated", False) and not getattr(prop, "indices", [1])),
                             live_is_none=ns.live_points is None,
+                            # the worst point is recorded but the iteration counter has not advanced yet: on the unchanged code only between two adjacent statements of
+                            # consume_sample itself
+                            iteration_not_advanced=bool(ns.live_points is not None and len(ns.nested_samples) == ns.iteration + 1),
                         )
                     else:
                         snap["sha_before"] = sha(rf)
@@ -232,8 +235,13 @@ def inject(case):
         if not res["final"]["sorted"]:
             problems.append(("final:unsorted", ""))
         if not ins:
-            if len(a) != ns.iteration + ns.nlive or len(ns.state.logLs) - 1 != len(a) or len(ns.insertion_indices) != ns.iteration:
-                problems.append(("final:counts-disagree", dict(n=len(a), it=int(ns.iteration), state=len(ns.state.logLs) - 1, indices=len(ns.insertion_indices))))
+            counts = dict(n=len(a), it=int(ns.iteration), nlive=int(ns.nlive), state=len(ns.state.logLs) - 1, indices=len(ns.insertion_indices))
+            if len(a) != ns.iteration + ns.nlive:
+                problems.append(("final:samples-vs-iterations-plus-nlive", counts))
+            if len(ns.state.logLs) - 1 != len(a):
+                problems.append(("final:integral-state-vs-samples", counts))
+            if len(ns.insertion_indices) != ns.iteration:
+                problems.append(("final:insertion-indices-vs-iteration", counts))
         for prop, key, detail in mon.problems:
             if prop in ("C01", "C03", "C04", "C05"):   # validity of the result; stopping-rule bookkeeping (C15) is not part of this property
                 problems.append((f"final:{prop}:{key}", detail))
@@ -435,6 +443,8 @@ def classify(res, key):
     if pred.get("integral_state_torn"):
         return "C13:integral-state-torn"
     if pred.get("replace_window"):
+        if pred.get("iteration_not_advanced") and res.get("func") != "consume_sample":
+            return "C13:" + key   # not the recorded mechanism: deeper in the replace step the iteration counter has always advanced already
         return "C13:replace-window"
     if pred.get("pool_flag_window"):
         return "C13:pool-flag-window"
@@ -494,6 +504,7 @@ def main():
     res = run_cases(cases, "checks.c13:inject", chk.scratch, nproc=chk.args.nproc, timeout=400)
     reached_lines = set()
     states = set()
+    kinds = {}
     for c, r in zip(cases, res):
         small = {k: c[k] for k in ("sampler", "func", "rel", "min_it", "kwargs", "signum", "stmt", "opcode") if k in c}
         if "fired" not in r:
@@ -522,6 +533,8 @@ def main():
         seen = set()
         for key, detail in r["problems"]:
             k = classify(r, key)
+            kinds.setdefault(k, {})
+            kinds[k][key] = kinds[k].get(key, 0) + 1
             if k in seen:
                 continue
             seen.add(k)
@@ -600,6 +613,7 @@ def main():
                       sample=dict(real_signal=dict(sampler=c["sampler"], func=c["func"], signum=int(c["signum"]), configured_exit_code=c["exit_code"]), process_exit_status=r["rc"]) if len(chk.samples) < 7 else None)
         for key, detail in r["problems"]:
             chk.violation("C13:" + key, f"real signal {int(c['signum'])} in {c['sampler']} {c['func']}+{c['rel']}: {detail}", {k: v for k, v in c.items() if k not in ("outdir", "_timeout")})
+    chk.extra["problem_kinds_by_mechanism"] = kinds
     chk.extra["distinct_source_lines_interrupted"] = len(reached_lines)
     chk.extra["distinct_interruption_states"] = sorted(str(s) for s in states)
     chk.extra["lines_available"] = len(targets)
